@@ -20,12 +20,27 @@ GROUPS.append({"name": "hash_bignum", "label": "bounded", "harness": "harness/C1
                "bound": "an L-word bignum against the same value stored in L+1 words (spare high zero word), L = 1, 2, 3; words and sign symbolic",
                "assumptions": ["discharged by the z3 4.8.12 SMT back end (MiniSat does not finish the relational query over two FNV-1 chains)"],
                "instances": [{"name": "l%d_vs_l%d" % (l, l + 1), "defs": {"LW": l}} for l in (1, 2, 3)]})
+import os
+from vlib import core
+from groups import C16 as c16, C01 as c01
+
+
+def prepare(tier):
+    c16.prepare(tier)        # type_specs.h: the text of _sexp_type_specs
+
+
+GROUPS.append({"name": "equalp_bound", "label": "bounded", "harness": "harness/C15/equalp.c", "entry": "h_equalp", "flags": FLAGS[:2] + ["-DVM_NPAIRS=8", "-I" + c16.GENDIR],
+               "link_src": ["harness/vm/stubs.c"], "units": [{"repo": "sexp.c", "remove_bodies": c01.SEXP_STUBBED}], "unwind": 8, "unwindset": "h_equalp.0:64,sexp_equalp_bound:4",
+               "min_obligations": 4, "timeout": 300, "mem_gb": 4, "functions": ["sexp.c:sexp_equalp_bound"],
+               "bound": "trees of 1 or 3 pairs (three shapes) leaves concrete, all equal or exactly one differing (every position); the budget symbolic in 10..1000",
+               "assumptions": ["pairs only (no vectors, strings, records); leaves are flonum objects (an immediate held in a pointer variable does not fold in CBMC)"],
+               "instances": [{"name": "shape%d_d%s" % (k, "n" if d < 0 else d), "defs": {"SHAPE": k, "DIFF": d}} for k in range(3) for d in ([-1, 0, 1] if k == 0 else [-1, 0, 1, 2, 3])]})
 META = {
  "level": "other",
  "explanation": "bounded deductive check: finite-map obligations over tables of enumerated size and hash coherence over enumerated bignum shapes; no unbounded obligation is claimed",
  "trusted_base": ["CBMC 6.11.0 (MiniSat; z3 4.8.12 for the hash coherence group)", "harness/prelude.h substitutions incl. kind tests on registered objects"],
  "assumptions": [],
- "not_covered": ["sexp_equalp_bound (termination on cyclic data, equivalence-relation laws): not under contract", "hash coherence for strings / flonums / vectors / pairs (only bignums)",
+ "not_covered": ["sexp_equalp_op's cycle-safe fallback and sexp_equalp_bound on vectors, strings, records and cyclic data (only trees of pairs)", "hash coherence for strings / flonums / vectors / pairs (only bignums)",
                  "equal / user-procedure modes of the hash table (sexp_apply back into the VM)", "hash-table-copy, walk, fold, update!: Scheme code (lib/srfi/69/interface.scm)",
                  "(chibi equiv), SRFI 125, SRFI 128: Scheme code"],
 }
